@@ -41,9 +41,9 @@ ASSUMPTIONS = [
 MIN_COUNTERS = {
     'quick': {'programs_compared': 250, 'comparisons': 1200, 'failing_builds': 150,
               'residue_checks': 450, 'concurrent_builds': 200},
-    'thorough': {'programs_compared': 15000, 'comparisons': 90000,
-                 'failing_builds': 15000, 'residue_checks': 45000,
-                 'concurrent_builds': 20000},
+    'thorough': {'programs_compared': 40000, 'comparisons': 160000,
+                 'failing_builds': 30000, 'residue_checks': 60000,
+                 'concurrent_builds': 40000},
 }
 
 KINDS = ['c01', 'c01', 'plain', 'mc', 'wf', 'variants', 'c01', 'mc']
@@ -57,8 +57,8 @@ def plan(tier, seed):
         groups, per = 2, 160
         nfresh = 4
     else:
-        groups, per = 16, 1100
-        nfresh = 16
+        groups, per = 16, 5000
+        nfresh = 32
     for g in range(groups):
         base = dict(group=g, first_case=g * per, n=per, hard_timeout=900)
         shards.append(dict(name=f'ref{g}', mode='nrt', kind='ref',
